@@ -23,6 +23,8 @@ structure State where
   claimed : List Nat := []
   /-- the prefetch queue: key, the entry that claimed, the trigger request -/
   queue : List (UInt64 × Entry × Req) := []
+  /-- `[ecs] client_networks` -/
+  nets : List Prefix := []
 
 /-! ### parsing -/
 
@@ -192,10 +194,28 @@ def applyPurged (s : State) (name : Bytes) (qtype qclass : UInt16) (a f c h : Li
 
 /-! ### step -/
 
-def clientScopes (s : State) (client : Scope) : Scope × Bool :=
+/-- the harness' default peer: 198.51.100.77 as a 4-byte address. -/
+def defaultPeer : Prefix := { v6 := false, bits := 32, addr := [198, 51, 100, 77] }
+
+/-- `peer=4:<hex> | m:<hex> | 6:<hex>` among `+`-joined flavour tokens. -/
+def parsePeer (toks : List String) : Prefix :=
+  match (toks.flatMap (·.splitOn "+")).find? (·.startsWith "peer=") with
+  | some t =>
+    match ((t.drop 5).toString).splitOn ":" with
+    | [fam, h] =>
+      match hexBytes h with
+      | some b =>
+        if fam == "4" then { v6 := false, bits := 32, addr := b }
+        else if fam == "m" then { v6 := true, bits := 128, addr := [0, 0, 0, 0, 0, 0, 0, 0, 0, 0, 0xFF, 0xFF] ++ b }
+        else { v6 := true, bits := 128, addr := b }
+      | none => defaultPeer
+    | _ => defaultPeer
+  | none => defaultPeer
+
+def clientScopes (s : State) (client : Scope) (peer : Prefix := defaultPeer) : Scope × Bool :=
   match client with
   | none => (none, false)
-  | some c => (if s.ecs then some (clampSource s.policy c) else none, true)
+  | some c => (if s.ecs && policyAllows s.nets peer then some (clampSource s.policy c) else none, true)
 
 /-- `ShouldPrefetch ∧ PrefetchEligible` for the harness' notion of age. -/
 def due (s : State) (e : Entry) : Bool :=
@@ -204,9 +224,9 @@ def due (s : State) (e : Entry) : Bool :=
 /-- one client request through the pipeline model: outcome, presentation name, request
 scope, ECS flag; a hit served by the decoded body on an entry that is due claims and
 queues its refresh (`handleCacheHit`). -/
-def runRequest (s : State) (route : String) (i : Ident) (client : Scope) :
+def runRequest (s : State) (route : String) (i : Ident) (client : Scope) (peer : Prefix := defaultPeer) :
     Option (State × MsgReply × Bytes × Scope × Bool) :=
-  let (cs, hasECS) := clientScopes s client
+  let (cs, hasECS) := clientScopes s client peer
   let W := world s
   -- `handleCacheHit` claims and queues the refresh right after verifying a hit, before any chase, with
   -- a copy of the request at hand — for the client's own hit and for every hop the decoded chase hits
@@ -314,10 +334,17 @@ def stepVer (w : List String) : String :=
 def stepPipe (s : State) (w : List String) : State × String :=
   match w with
   | ["pipe", "new", e] => ({ ecs := e == "on" }, "ok")
-  | ["pipe", "new", e, cfg] =>
-    match parsePolicy cfg with
-    | some (pol, pf) => ({ ecs := e == "on", policy := pol, prefetchOn := pf }, "ok")
-    | none => (s, "bad-op")
+  | "pipe" :: "new" :: e :: cfg :: more =>
+    let nets : Option (List Prefix) :=
+      match more with
+      | [] => some []
+      | [t] => if t.startsWith "nets=" then
+                 (((t.drop 5).toString.splitOn ";").mapM parseScope).map fun l => l.filterMap id
+               else none
+      | _ => none
+    match parsePolicy cfg, nets with
+    | some (pol, pf), some nets => ({ ecs := e == "on", policy := pol, prefetchOn := pf, nets := nets }, "ok")
+    | _, _ => (s, "bad-op")
   | ["pipe", "age", idn] =>
     match idn.toNat? with
     | some id => if s.st.any (·.2.id == id) then ({ s with aged := id :: s.aged }, "ok") else (s, "no-such-entry")
@@ -353,10 +380,19 @@ def stepPipe (s : State) (w : List String) : State × String :=
           | some (Name.wire w) => some w
           | _ => none
       let noSubnet := (more.find? (·.startsWith "opt=")).any fun t => !(t.drop 4).toString.contains 'S' 
-      match runRequest s route i client with
+      match runRequest s route i client (parsePeer more) with
       | some (s', o, p, cs, _) =>
         match o with
         | MsgReply.miss =>
+          if more.contains "servfail" then
+            -- the upstream fails: `WriteMsg` files an RFC 9520 state for this question and audience
+            let n := canonicalName p
+            let sc := normalizeKeyScope cs
+            let fs := recordFailure H s.fs id p i.qtype i.qclass i.cd cs
+            match fs.find? (·.2.id == id) with
+            | some (h, _) => ({ s with fs := fs }, s!"servfail {id} f={hex16 h}")
+            | none => let _ := (n, sc); ({ s with fs := fs }, s!"servfail {id} unrecorded")
+          else
           -- the miss reaches the upstream; `WriteMsg` admits its answer.  The ECS option of the
           -- response: SCOPE `bits`, ADDRESS the forwarded source unless the op names another one
           let echo : Option (Option Prefix) :=
@@ -469,10 +505,10 @@ def stepPipe (s : State) (w : List String) : State × String :=
           ({ s with cuts := cut :: cuts, byHash := byHash }, "ok wire=t")
       | none => (s, "bad-op")
     | _, _ => (s, "bad-op")
-  | "pipe" :: "get" :: route :: ids :: cl :: _flavour =>
+  | "pipe" :: "get" :: route :: ids :: cl :: flavour =>
     match parseIdent ids, parseScope cl with
     | some i, some client =>
-      match runRequest s route i client with
+      match runRequest s route i client (parsePeer flavour) with
       | some (s', o, _, _, _) => (s', showReply o)
       | none => (s, "bad-op")
     | _, _ => (s, "bad-op")
